@@ -21,6 +21,7 @@ EXPLANATION = (
     "multiplies the lifted matrix from the left; (D6) _lift_matrix places identity blocks for low indices on the "
     "left and conjugates gate by the permutation with consistent inversion parity. "
     "(D2e) a circuit without operations yields the identity (fold with an initial value or an emptiness guard)."
+    ' Round 4: every exit of GateOperation.lifted_matrix is one of the two liftings (no third embedding).'
 )
 RULE_TEXT = (
     "instances = anchored functions and the call sites/expressions inside them (producer calls, accumulator "
